@@ -13,7 +13,22 @@ import (
 	"verif/harness/internal/stats"
 )
 
-// Deterministic witnesses of the known findings: fixed scripts over chains of empty blocks.
+// Deterministic witnesses of the known findings of C06 (fixed scripts over chains of empty blocks).
+//
+// 1. c06-revert-without-confirming-replacement: revertTask reverts every local head above its
+//    lastPossiblyValidHeight hint without asking the source, so blocks the source still has are reverted
+//    (plugin RevertBlock, OnReorg, reorg notification) and then stored again with the same hashes. Triggers:
+//    (a) a stale latest header taken from an abandoned fork, (b) a block with a forged parent hash and a
+//    recomputed hash, (c) honest source: block N fetched before a reorg, block N-1 after it (two fetchers).
+//    Fix: proposed_fixes/c06-revert-without-confirming-replacement.diff (ask the source for every head;
+//    residual: trigger + fetch error on that confirmation request).
+// 2. c06-revert-comparison-block-unverified: the block revertTask fetches to compare hashes is not verified
+//    (hash consistency, number); a garbage answer reverts a canonical block.
+// 3. c06-remote-head-at-genesis-wraps-revert-height: isReverting returns remoteHeight-1 on a uint64; a remote
+//    head at height 0 with another genesis wraps it, nothing is ever reverted (livelock until the source
+//    outgrows the node).
+//
+// `go test -race -run TestRaceKnown -v` prints the complete history of each witness.
 
 // witnessGuard bounds the wait for the next scripted request; hitting it only means "not reproduced".
 const witnessGuard = 20 * time.Second
